@@ -80,7 +80,7 @@ PROPS = {
     },
     "C01": {
         "level": "proof",
-        "units": ["nameparse", "labeliter", "sections", "optiter", "txtdata"],
+        "units": ["nameparse", "labeliter", "sections", "optiter", "txtdata", "svcparams"],
         "vx_search": {"bin": "c01_search_small_names", "crate": "replay", "release": True,
                       "what": "16.4 million (octet string of at most 7 octets over 8 parser-relevant octets, offset) pairs: ParsedName::parse, "
                               "label iteration both ways, flattening, as_flat_slice, compose_len, equality and Label::iter_slice on the real "
@@ -114,7 +114,11 @@ PROPS = {
                        "Opt::check_slice accepts exactly the well-framed option sequences of at most 65535 octets; "
                        "OptIter::{new, next_step, next}: total for every option type, a step consumes exactly one whole option "
                        "(header plus announced length, which must fit), the iterator terminates, stays on option boundaries of "
-                       "checked data and is exhausted for good after its first error. Kani covers the unsafe header casts.",
+                       "checked data and is exhausted for good after its first error. Unit `svcparams` (rdata/svcb/params.rs): "
+                       "SvcParams::check_slice accepts exactly the well-framed parameter sequences with strictly ascending keys; "
+                       "ValueIter::{new, next_step, next} with the same guarantees as the option iterator. Unit `txtdata`: "
+                       "Txt::check_slice accepts exactly the non-empty sequences of character strings, Txt::parse yields character "
+                       "strings (possibly none), CharStr::skip, and as_flat_slice is total on all of them. Kani covers the unsafe header casts.",
         "not_covered": "RecordIter/AnyRecordIter and into_record (typed RDATA parsers for all types), the individual OPT option "
                        "parsers (parse_option of each option type is a trait contract here), OptRecord/OptHeader accessors, MessageIter, "
                        "Message::canonical_name/is_answer (CBMC does not terminate on them: not under contract), dig-style and "
